@@ -24,9 +24,14 @@ CORE_TYPES = ['void', 'boolean', 'integer', 'real', 'string', 'unique_id']
 HOME_PARAMS = [['pi', 'integer'], ['pb', 'boolean'], ['ps', 'string'], ['pr', 'real'], ['pa', 'Age_t'], ['pn', 'Name_t']]
 
 SPEC = {
-    'enums': [['Color', ['red', 'green', 'blue']], ['Mode', ['fast', 'slow']]],
+    # the enumerations share enumerator names (unknown, red); one constant is named like an enumerator, and two
+    # constant specifications hold a constant of the same name (MAX) with different types
+    'enums': [['Color', ['red', 'green', 'blue', 'unknown']], ['Mode', ['fast', 'slow', 'unknown']],
+              ['Alarm', ['red', 'amber', 'unknown']]],
     'consts': [['Limits', [['MAX', 'integer', '10'], ['LABEL', 'string', 'lbl'], ['RATIO', 'real', '0.5'],
-                          ['DEBUG', 'boolean', 'true']]]],
+                          ['DEBUG', 'boolean', 'true']]],
+               ['Defaults', [['MAX', 'real', '99.5'], ['unknown', 'string', 'u'], ['LABEL', 'string', 'other'],
+                             ['COUNT', 'integer', '3']]]],
     'classes': [
         {'kl': 'DOG', 'name': 'Dog',
          'attrs': [['Id', 'integer'], ['Name', 'string'], ['Age', 'integer'], ['Weight', 'real'],
@@ -357,7 +362,10 @@ class ProgramGen(object):
         if ty == 'real':
             return r.choice(['0.5', '1.0', '3.14', '10.25', '2.', '.75'])
         if ty == 'string':
-            return '"%s"' % r.choice(['', 'a', 'hello', 'x y', 'Dog #1', "it's", 'end if', 'a;b'])
+            # OAL strings have no escape sequences: a backslash, a percent sign, a tick, a tab are ordinary characters
+            return '"%s"' % r.choice(['', 'a', 'hello', 'x y', 'Dog #1', "it's", 'end if', 'a;b', 'C:\\temp\\log.txt',
+                                      'a\\nb', '\\\\', 'ends with \\', '100%', '%s %d', "''", 'tab\there', '{0}',
+                                      '\\"'[:1] + 'q', '/* no comment */', '// neither'])
         if ty == 'boolean':
             return r.choice(['true', 'false', 'TRUE', 'False'])
         raise KeyError(ty)
@@ -541,10 +549,9 @@ class ProgramGen(object):
             return '%s.%s' % (r.choice(['param', 'param', 'PARAM']),
                               r.choice([n for n, t in HOME_PARAMS if core_type(t) == ty])), False
         if k == 'const':
-            for g, cs in SPEC['consts']:
-                names = [n for n, t, _ in cs if t == ty]
-                if names:
-                    return '%s::%s' % (g, r.choice(names)), False
+            cands = ['%s::%s' % (g, n) for g, cs in SPEC['consts'] for n, t, _ in cs if t == ty]
+            if cands:
+                return r.choice(cands), False
         if ty in SCALARS:
             return self.lit(ty), False
         for en, es in SPEC['enums']:
@@ -638,7 +645,7 @@ class ProgramGen(object):
         k = r.choice(self.kinds(depth))
         self.count(k)
         if k == 'assign':
-            ty = r.choice(SCALARS + ['integer', 'boolean', 'Color'])
+            ty = r.choice(SCALARS + ['integer', 'boolean', 'Color', 'Mode', 'Alarm'])
             existing = self.visible(lambda v: v == ('trn', ty))
             e = self.expr(ty, 0)[0]
             others = self.visible(lambda v: v[0] == 'trn' and v[1] in SCALARS and v[1] != ty)
